@@ -389,6 +389,8 @@ theorem v2_C06_dbok_update (ops : FOps) (s : Schema) (db : Db) (hok : DbOk ops d
     simp only []
     split
     · exact hok
+    split
+    · exact hok
     · obtain ⟨henc, y, hy⟩ := v2_C06_written_rows ops s x r hw
       constructor
       · intro e he
@@ -415,7 +417,8 @@ a no-op.**  On the statement-level table: `remove_track` of an existing track
 returns normally and leaves no row for the id; from then on, through any
 history (ids are never reissued — AUTOINCREMENT), there is no row for it
 (`is_valid()` false, `snapshot()` `track_deleted`), every setter throws
-`track_row_id_error` without writing, `update` writes nothing, a second
+`track_row_id_error` without writing, `update` throws (`track_deleted` for a
+storable snapshot) without writing, a second
 `remove_track` throws `invalid_argument`. -/
 theorem v2_C06_removed_track (ops : FOps) (s : Schema) (db : TDb) (hI : Inv db) (id : Nat) :
     (∀ t, db.find id = some t → (callRemove id db).2 = .ok () ∧ Gone (callRemove id db).1 id) ∧
@@ -423,7 +426,7 @@ theorem v2_C06_removed_track (ops : FOps) (s : Schema) (db : TDb) (hI : Inv db) 
       let db' := db.run ops s hist
       db'.find id = none ∧
       (∀ σ, callSet ops id σ db' = (db', .throw .runtime_error)) ∧
-      (∀ x, (callUpdate ops s id x db').1 = db') ∧
+      (∀ x, ∃ e, callUpdate ops s id x db' = (db', .throw e)) ∧
       callRemove id db' = (db', .throw .invalid_argument)) := by
   refine ⟨fun t hf => gone_of_remove hI hf, ?_⟩
   intro hg hist db'
@@ -433,15 +436,14 @@ theorem v2_C06_removed_track (ops : FOps) (s : Schema) (db : TDb) (hI : Inv db) 
   · intro x
     unfold callUpdate
     rw [M.lift_bind]
-    cases writeStore ops s x with
-    | throw e => rfl
-    | ub u => rfl
-    | ok r =>
+    rcases writeStore_total ops s x with ⟨r, hw⟩ | ⟨e, hw⟩
+    · rw [hw]
       simp only []
       rw [M.bind_apply]
       unfold M.stmt
       simp only [updateStmt_none hg'.1]
-      rfl
+      exact ⟨_, rfl⟩
+    · rw [hw]; exact ⟨e, rfl⟩
   · rw [callRemove_eq]
     have : (db'.rows.filter fun e => e.id == id).length = 0 := by
       rw [List.length_eq_zero_iff, List.filter_eq_nil_iff]
